@@ -76,9 +76,12 @@ class Ctx:
     def key(self, tool, mode, kind):
         if self.cls == "v2-odd" and tool == "graph-convert" and mode in self.COPY_MODES:
             return "C12:graph-convert:copy+toFile:wrong-output:v2-odd"
+        if tool == "dist-graph-convert":
+            # optional MPI tool: coarse kinds (crash / wrong-output) per conversion and partitioning regime
+            coarse = "crash" if kind.startswith("tool-failed") else "wrong-output"
+            return "C12:dist-graph-convert:%s:%s%s" % (mode, coarse, (":" + self.dcls) if self.dcls else "")
         # other conversions: the same key whatever the input version (version and padding are in the witness)
-        k = "C12:%s:%s:%s" % (tool, mode, kind)
-        return k + (":" + self.dcls if self.dcls else "")
+        return "C12:%s:%s:%s" % (tool, mode, kind)
 
     def violation(self, key, detail):
         if key not in self.fired:
@@ -101,9 +104,9 @@ class Ctx:
         text = p.stdout.decode(errors="replace")
         kind, what, fr = classify_tool_failure(p.returncode, text)
         lines = [l for l in text.splitlines() if "Huge page alloc failed" not in l]
+        # no stack frame in the key: conversion + failure kind + message is narrow, and stays the same when the tree
+        # under test lives elsewhere (mutation trials)
         key = self.key(tool, mode or args[0].lstrip("-"), "tool-failed:%s:%s" % (kind, what))
-        if fr:
-            key += "@" + fr[0]
         self.violation(key, {"cmd": [tool] + [os.path.basename(a) if a.startswith("/") else a for a in args],
                              "rc": p.returncode, "output_tail": "\n".join(lines)[-1800:]})
         return False
@@ -239,7 +242,7 @@ EDGE_GRAPHS = ["empty", "node", "loop", "isolated", "edge", "last-isolated"]
 def edge_case_graph(name, et, version=1):
     """the smallest members of the C11 graph family, where conversions most often go wrong"""
     n, E = {"empty": (0, []), "node": (1, []), "loop": (1, [(0, 0)]), "isolated": (4, []), "edge": (2, [(0, 1)]),
-            "last-isolated": (3, [(0, 1), (1, 0)])}[name]
+            "last-isolated": (3, [(0, 1), (1, 0)]), "path4": (4, [(0, 1), (1, 2), (2, 3), (3, 3), (1, 2)])}[name]
     g = G.Graph(n, G.et_width(et), version)
     g.kind = "edge-case:" + name
     for i, (a, b) in enumerate(E):
@@ -1036,19 +1039,36 @@ def fam_remap(ctx):
     ctx.same("graph-remap", "remap", exp, o)
 
 
+DIST_MODES = ["edgelist2gr", "edgelist2gr", "gr2tgr", "gr2tgr", "gr2sgr-noclean", "gr2sgr", "gr2cgr"]
+
+
+def dist_sweep_list():
+    return [(fam_dist, mode, np, gname) for mode in sorted(set(DIST_MODES)) for gname in ("loop", "edge", "last-isolated", "path4")
+            for np in (1, 2, 3)]
+
+
 def fam_dist(ctx):
     """thorough only: dist-graph-convert under mpirun (version 1, void or uint32 edge data; its edge-list reader takes
     plain 'src dst [weight]' lines only)"""
     r = ctx.r
-    mode = r.pick(["edgelist2gr", "edgelist2gr", "gr2tgr", "gr2tgr", "gr2sgr-noclean", "gr2sgr", "gr2cgr"])
+    mode = ctx.force.get("mode") or r.pick(DIST_MODES)
     et = "void" if mode in ("gr2sgr", "gr2cgr") else r.pick(["void", "uint32"])
-    np = r.pick([1, 2, 2, 3])
-    g = G.gen_graph(r, et, 400, vmode=r.pick(["small", "medium", "wide", "unique"]))
+    np = ctx.force.get("np") or r.pick([1, 2, 2, 3])
+    if ctx.force:
+        g = edge_case_graph(ctx.force["graph"], et)
+    else:
+        g = G.gen_graph(r, et, 400, vmode=r.pick(["small", "medium", "wide", "unique"]))
     if g.m() == 0 or g.n == 0:
         g = G.gen_graph(r, et, 40, shape=r.pick(["random", "mixed", "cycle"]), vmode="unique")
     if g.m() == 0:
         g.adj[0].append((g.n - 1, G.et_pack(et, 5) if et != "void" else b""))
     keep_self = mode == "gr2cgr" and r.below(2) == 1
+    if not ctx.force:
+        # random cases stay in the regime the tool is written for (every host gets nodes, edges and input lines, the
+        # result has edges); the degenerate partitions are covered by the deterministic sweep on the smallest graphs
+        np = max(1, min(np, g.n, g.m() // 2))
+        if mode in ("gr2sgr", "gr2cgr") and all(d == s_ for s_, d, _ in g.edges()):
+            mode = "gr2tgr"
     ctx.params = {"family": "dist-graph-convert", "mode": mode, "edgeType": et, "hosts": np, "nodes": g.n, "edges": g.m(),
                   "shape": g.kind, "keepSelfLoops": keep_self}
     # regime classes for the keys: the tool divides nodes / input lines among hosts
@@ -1235,9 +1255,13 @@ def _run_case(idx, seed, tier, tools, root):
             break
         x -= w
     sweep = sweep_list()
+    dsweep = dist_sweep_list() if "dist-graph-convert" in tools else []
     if idx < len(sweep):
         fam, mode, et, gname = sweep[idx]
         ctx.force = {"mode": mode, "et": et, "graph": gname}
+    elif idx < len(sweep) + len(dsweep):
+        fam, mode, np, gname = dsweep[idx - len(sweep)]
+        ctx.force = {"mode": mode, "np": np, "graph": gname}
     if fam is fam_exotic and "dist-graph-convert" in tools and ctx.r.below(2):
         fam = fam_dist
     if fam in (fam_huge,) and "graph-convert-huge" not in tools:
@@ -1289,7 +1313,7 @@ def convert_run(ncases):
         root = os.path.join(SCRATCH_ROOT, "t%d" % os.getpid())
         shutil.rmtree(root, ignore_errors=True)
         os.makedirs(root)
-        n = len(sweep_list()) + ncases[tier]
+        n = len(sweep_list()) + (len(dist_sweep_list()) if "dist-graph-convert" in tools else 0) + ncases[tier]
         try:
             with cf.ThreadPoolExecutor(max_workers=PAR) as ex:
                 results = list(ex.map(lambda i: _run_case(i, seed, tier, tools, root), range(n)))
@@ -1316,16 +1340,16 @@ def c12(tier):
     runs = []
     tool_targets = [("asan", "graph-convert"), ("asan", "graph-convert-huge"), ("asan", "graph-remap")]
     if tier == "quick":
-        runs.append(H("c12_files", "asan", 2500, None, timeout_per_case=20, timeout_base=120))
-        runs.append(H("c12_files", "asan", 1200, "4,4,4,4", timeout_per_case=20, timeout_base=120))
-        runs.append(H("c12_files", "asan", 600, "3,5", timeout_per_case=20, timeout_base=120))
-        runs.append(dict(name="convert", py=convert_run({"quick": 500, "thorough": 6000}), extra_targets=tool_targets))
+        runs.append(H("c12_files", "asan", 6000, None, timeout_per_case=20, timeout_base=120))
+        runs.append(H("c12_files", "asan", 3000, "4,4,4,4", timeout_per_case=20, timeout_base=120))
+        runs.append(H("c12_files", "asan", 1500, "3,5", timeout_per_case=20, timeout_base=120))
+        runs.append(dict(name="convert", py=convert_run({"quick": 500, "thorough": 5000}), extra_targets=tool_targets))
     else:
-        runs.append(H("c12_files", "asan", 20000, None, timeout_per_case=20, timeout_base=300))
-        runs.append(H("c12_files", "asan", 8000, "4,4,4,4", timeout_per_case=20, timeout_base=300))
-        runs.append(H("c12_files", "asan", 4000, "3,5", timeout_per_case=20, timeout_base=300))
-        runs.append(H("c12_files", "asan", 4000, "smt:2x2x2", timeout_per_case=20, timeout_base=300))
-        runs.append(dict(name="convert", py=convert_run({"quick": 500, "thorough": 6000}), extra_targets=tool_targets))
+        runs.append(H("c12_files", "asan", 40000, None, timeout_per_case=20, timeout_base=600))
+        runs.append(H("c12_files", "asan", 15000, "4,4,4,4", timeout_per_case=20, timeout_base=600))
+        runs.append(H("c12_files", "asan", 8000, "3,5", timeout_per_case=20, timeout_base=600))
+        runs.append(H("c12_files", "asan", 8000, "smt:2x2x2", timeout_per_case=20, timeout_base=600))
+        runs.append(dict(name="convert", py=convert_run({"quick": 500, "thorough": 5000}), extra_targets=tool_targets))
     return runs
 
 
